@@ -122,7 +122,8 @@ def export_batch(cases):
     groups = []
     index = {}
     for c in cases:
-        c.program = sasm.Program(c.lines, c.args)
+        if c.program is None:
+            c.program = sasm.Program(c.lines, c.args)
         code = code_records(c.program)
         rt = rt_record(c.program)
         gkey = (id(c.lines), tla(code), tla(rt), c.program.word)
